@@ -118,6 +118,7 @@ def run(ctx):
             adtv = prog.adts.get(R + "RegexType")
             vnames = {v["idx"]: v["name"] for v in adtv["variants"]} if adtv else {}
             got = {}
+            subj_by_variant = {}
             subj_all = True
             for fc in fmtlit.all_format_calls(nf):
                 if fc is None:
@@ -131,11 +132,27 @@ def run(ctx):
                 subj_all = subj_all and subj_ok
                 for v in vs:
                     got[v] = fc.shape() if v not in got else "<ambiguous>"
+                    subj_by_variant[v] = fc.args[ph[0]["index"]][1] if subj_ok else None
             oracle = {"PosixExtended": "(?:{0})\\'", "Emacs": "\\(?:{0}\\)\\'", "Grep": "\\(?:{0}\\)\\'", "PosixBasic": "\\(?:{0}\\)\\'"}
             anchored = all(got.get(v) == oracle[v] for v in oracle) and subj_all and po.strip().k != "arg"
             ctx.ob("R2", "end-anchor-inside-pattern", anchored,
                    "the pattern handed to onig for matching is built as %s (operand %s); oracle %s: onig's match at position 0 returns the first alternative that succeeds and the verdict merely checks that this one result spans the text, so `-regextype posix-extended -regex 'r/(a|ab)'` would reject r/ab although it is in the language — the end-of-text requirement must be part of the compiled pattern: a non-capturing group in the syntax's own spelling (back-references keep their numbers) + the end-of-buffer anchor" % (got, po.fmt()[:120], oracle),
                    fn=nf, where=prim.site(nf, b), how="decoded format templates per RegexType arm (contract O1)")
+            # contract O4: of the four syntaxes only posix-extended lets a ')' without an open group stand for itself
+            # (ONIG_SYN_ALLOW_UNMATCHED_CLOSE_SUBEXP); there the user's text could close the wrapper's own group
+            for v in ("PosixExtended",):
+                so = subj_by_variant.get(v)
+                okc, whyc = False, "no substituted operand found for this variant"
+                if so is not None:
+                    helpers = [cn for cn in so.call_nodes() if cn.a["callee"].startswith("findutils::") and any(x.k == "arg" and x.a["name"] == "pattern" for x in cn.walk())]
+                    if not helpers:
+                        whyc = "the raw pattern is substituted (%s)" % so.fmt()[:80]
+                    else:
+                        hf = prog.fns.get(helpers[0].a["callee"]) or prog.fns.get("findutils::" + helpers[0].a["callee"].split("findutils::", 1)[1])
+                        okc, whyc = _escapes_unmatched_close(prog, hf) if hf is not None else (False, "helper %s not found" % helpers[0].a["callee"])
+                ctx.ob("R2", "wrapper-group-not-closable:%s" % v, okc,
+                       "under %s a ')' that closes nothing is an ordinary character (and passes the validation of the raw pattern), but inside the wrapper `(?:...)` it would close the wrapper's group — `-regex 'w/a)b'` would then match w/ab) instead of w/a)b; "
+                       "the substituted text must have every such ')' escaped: %s" % (v, whyc), fn=nf, where=prim.site(nf, b), how="substituted operand per RegexType arm + structure of the escaping helper (contract O4)")
             # the syntax of the derived compile: a copy of the selected syntax with exactly the two operators the wrapper needs
             en = [(b2, t2) for b2, t2 in nf.calls() if (t2.callee or "").startswith("onig::Syntax::enable_operators") or (t2.callee or "").startswith("onig::Syntax::set_operators") or (t2.callee or "").startswith("onig::Syntax::disable_operators") or (t2.callee or "").startswith("onig::Syntax::set_options") or (t2.callee or "").startswith("onig::Syntax::enable_behavior") or (t2.callee or "").startswith("onig::Syntax::set_behavior") or (t2.callee or "").startswith("onig::Syntax::set_meta_char")]
             okops = len(en) == 1 and en[0][1].j.get("callee_name") == "enable_operators"
@@ -292,3 +309,50 @@ def _shared_place(o):
     if s.k == "arg" and (o.k == "deref" or fields or any(x.k == "deref" for x in o.walk())):
         return (s.a["idx"], tuple(reversed(fields)))
     return None
+
+
+def _escapes_unmatched_close(prog, hf):
+    """the helper copies its input and writes an escaped ')' exactly where the character is ')' and the count of open groups is
+    zero; the count goes up by one per '(' and down by one per other ')'"""
+    lit_sites = []
+    for b, t in hf.calls():
+        if t.j.get("callee_name") in ("push_str", "push") and len(t.args) == 2:
+            o = prim.origin_of_operand(hf, t.args[1]).strip()
+            if o.k == "const" and o.a.get("v") == "\\)":
+                lit_sites.append(b)
+            elif o.k == "const" and o.a.get("k") in ("str", "char"):
+                return False, "the helper writes the constant %r" % (o.a.get("v"),)
+    if len(lit_sites) != 1:
+        return False, "expected one site writing the escaped parenthesis, found %d" % len(lit_sites)
+    atoms = prim.norm_guards(prim.dominating_guards(hf, lit_sites[0]))
+    is_close = lambda x: x.strip().k == "const" and x.strip().a.get("v") in (")", 41)
+    is_zero = lambda x: x.strip().k == "const" and x.strip().a.get("v") == 0
+    anyo = lambda x: True
+    at_c = prim.atom_holds(atoms, "eq", anyo, is_close)
+    at_z = prim.atom_holds(atoms, "eq", lambda x: x.strip().k == "var", is_zero)
+    if at_c is None or at_z is None:
+        return False, "the escaped ')' is written under %s; oracle: character == ')' and open-group count == 0" % prim.guards_fmt(prim.dominating_guards(hf, lit_sites[0]))[:200]
+    cnt = (at_z["a"] if at_z["a"].strip().k == "var" else at_z["b"]).strip().a.get("local")
+    ups, downs = [], []
+    for bb, kind, obj in prim.local_defs(hf).get(cnt, []):
+        if kind != "assign" or bb not in hf.reachable():
+            continue
+        o = prim._origin_of_def(hf, (bb, kind, obj), 6, set()).strip()
+        core = o.kids[0].strip() if o.k == "field" and o.kids else o
+        if core.k == "const":
+            if core.a.get("v") != 0:
+                return False, "the count starts at %r" % core.a.get("v")
+            continue
+        if core.k == "bin" and [x.get("v") for x in core.consts()] == [1]:
+            ats = prim.norm_guards(prim.dominating_guards(hf, bb))
+            lits = [a_["b"].strip().a.get("v") for a_ in ats if a_["rel"] == "eq" and a_["b"].strip().k == "const" and a_["b"].strip().a.get("k") in ("char", "int") and isinstance(a_["b"].strip().a.get("v"), (str, int)) and a_["a"].fmt() == (at_c["a"] if not is_close(at_c["a"]) else at_c["b"]).fmt()]
+            if core.a in ("Add", "AddWithOverflow"):
+                ups.append(lits)
+            elif core.a in ("Sub", "SubWithOverflow"):
+                downs.append(lits)
+            else:
+                return False, "the count is updated by %s" % core.fmt()
+        else:
+            return False, "the count is updated by %s" % core.fmt()[:80]
+    okk = len(ups) == 1 and len(downs) == 1 and any(v in ("(", 40) for v in ups[0]) and any(v in (")", 41) for v in downs[0])
+    return okk, "escaped ')' written under [char == ')' and count == 0]; count +1 under %s, -1 under %s" % (ups, downs)
